@@ -458,6 +458,16 @@ func (r *runner) clientConc(ci int, ops []Op) {
 				tr.Discard()
 			}
 			r.end(h)
+		case "txleave":
+			// open a transaction, write to it and leave it open
+			simrt.SetOp("OpenTransaction")
+			tr, err := db.OpenTransaction()
+			simrt.SetOp("")
+			if err == nil {
+				tr.Put(op.Key, op.Val.Bytes(), nil)
+				r.probe("tx-left-open-at-close")
+			}
+			simrt.Progress()
 		case "setro":
 			simrt.SetOp("SetReadOnly")
 			if err := db.SetReadOnly(); err == nil {
@@ -1253,7 +1263,7 @@ func genConcFault(prop string, seed uint64, g *gen) *Case {
 		}
 	}
 	// oversized batches take the transaction route
-	if r.p(0.5) {
+	if r.p(0.5) || prop == "C11" && r.p(0.6) {
 		c.Knobs.WriteBuffer = r.pick(512, 1024)
 		c.Knobs.DisableLargeBatchTx = false
 	}
@@ -1273,7 +1283,7 @@ func genConcFault(prop string, seed uint64, g *gen) *Case {
 		at := r.intn(len(c.Clients[0]) + 1)
 		c.Clients[0] = append(c.Clients[0][:at:at], append([]Op{{K: "tx", Recs: recs}}, c.Clients[0][at:]...)...)
 		c.Clients = append(c.Clients, []Op{{K: "sleep", Ms: r.pick(1, 300, 900, 1500, 2500)}, {K: "close"}})
-		c.Faults = append(c.Faults, &simdisk.Fault{Kind: "err", Op: simdisk.OpSync, FT: int(storage.TypeManifest), Nth: r.rng(1, 8), Count: r.rng(1, 4), Epoch: -1})
+		c.Faults = append(c.Faults, &simdisk.Fault{Kind: "err", Op: simdisk.OpSync, FT: int(storage.TypeManifest), Nth: r.rng(1, 8), Count: r.rng(1, 7), Epoch: -1})
 	}
 	return c
 }
@@ -1521,7 +1531,12 @@ func genConc(prop string, seed uint64, g *gen, thorough bool) *Case {
 		}
 		if ci == closer {
 			at := r.intn(len(ops) + 1)
-			ops = append(ops[:at], Op{K: "close"})
+			ops = ops[:at]
+			if r.p(0.3) {
+				// Close with a transaction still open: Close discards it
+				ops = append(ops, Op{K: "txleave", Key: g.key(), Val: g.val(200)})
+			}
+			ops = append(ops, Op{K: "close"})
 		}
 		c.Clients = append(c.Clients, ops)
 	}
